@@ -44,7 +44,11 @@ with cf.ThreadPoolExecutor(int(os.environ.get("BEN_PAR", "3"))) as ex:
     for n, out in ex.map(one, names):
         print(out, flush=True)
         res = re.findall(r"^== \S+ vs (C\d\d) \w+: exit=(\d+)", out, re.M)
-        rows.append((n, ", ".join("%s %s" % (c, "silent" if e == "0" else "ALARM(exit %s)" % e) for c, e in res)))
+        exp = {}
+        mp = os.path.join(d, n, "meta.json")
+        if os.path.exists(mp):
+            exp = json.load(open(mp)).get("expected_alarms", {})
+        rows.append((n, ", ".join("%s %s" % (c, "silent" if e == "0" else ("alarm, expected: " + exp[c]) if c in exp else "ALARM(exit %s)" % e) for c, e in res)))
 if not sys.argv[2:]:
     with open(os.path.join(d, "RESULTS.md"), "w") as f:
         f.write("# Property-preserving changes (independent sub-agents) and the %s checks run against them\n\n" % tier)
